@@ -53,7 +53,10 @@ def main(argv):
             d = os.path.join(seeded, name)
             meta = json.load(open(os.path.join(d, "meta.json"))) if os.path.exists(os.path.join(d, "meta.json")) else {}
             harmless = name.startswith(("refactor", "visible"))
-            target = meta.get("breaks_property") or re.match(r"(C\d\d)", name).group(1) if not harmless else None
+            blind = meta.get("breaks_properties")          # seeded/blind-*: classified after the fact (possibly none)
+            if name.startswith("blind"):
+                harmless = not blind
+            target = None if harmless else (blind[0] if blind else (meta.get("breaks_property") or re.match(r"(C\d\d)", name).group(1)))
             sh(["git", "-C", repo, "checkout", "--", "."])
             sh(["git", "-C", repo, "clean", "-fdq"])
             rc, out = sh(["git", "-C", repo, "apply", os.path.join(d, "patch.diff")])
@@ -61,7 +64,7 @@ def main(argv):
                 rows.append((name, "patch does not apply: " + out.strip()[:80]))
                 lost.append(name)
                 continue
-            checks = ALL if (harmless or all_checks) else [target]
+            checks = ALL if (harmless or all_checks) else (blind or [target])
             caught = []
             for c in checks:
                 rc, out = sh([os.path.join(VERIF, "check"), c, "quick"], cwd=VERIF, env=env)
@@ -75,7 +78,7 @@ def main(argv):
                 rows.append((name, "quiet" if not caught else "ALARM from " + ",".join(caught)))
             else:
                 was = meta.get("target_check_caught_it", True)
-                ok = target in caught
+                ok = (target in caught) if not blind else any(c in caught for c in blind)
                 if was and not ok:
                     lost.append(name)
                 rows.append((name, ("caught by %s" % ",".join(caught)) if caught else "NOT CAUGHT"))
@@ -85,8 +88,8 @@ def main(argv):
         sh(["git", "-C", "/repo", "worktree", "prune"])
         shutil.rmtree(WORK, ignore_errors=True)
     print("selftest: %d seeded changes, %d no longer caught by their own check%s; %d harmless changes, %d noisy%s" % (
-        sum(1 for n in names if not n.startswith(("refactor", "visible"))), len(lost), (" (" + ", ".join(lost) + ")") if lost else "",
-        sum(1 for n in names if n.startswith(("refactor", "visible"))), len(noisy), (" (" + ", ".join(noisy) + ")") if noisy else ""))
+        sum(1 for r in rows if r[1].startswith(("caught", "NOT"))), len(lost), (" (" + ", ".join(lost) + ")") if lost else "",
+        sum(1 for r in rows if r[1].startswith(("quiet", "ALARM"))), len(noisy), (" (" + ", ".join(noisy) + ")") if noisy else ""))
     return 1 if lost or noisy else 0
 
 
